@@ -182,7 +182,7 @@ def _equiv(t, t2, ctx, timeout_ms):
     if t.sort() != t2.sort():
         return "sort-mismatch", f"{t.sort()} vs {t2.sort()}"
     s = z3.Solver(ctx=ctx)
-    s.set("timeout", timeout_ms)
+    s.set("timeout", int(paths.scaled(timeout_ms)))
     if z3.is_fp(t):
         neq = z3.Not(z3.Or(z3.And(z3.fpIsNaN(t), z3.fpIsNaN(t2)), z3.fpToIEEEBV(t) == z3.fpToIEEEBV(t2))) if False else \
             z3.Not(z3.Or(z3.And(z3.fpIsNaN(t), z3.fpIsNaN(t2)), t == t2))
